@@ -1,0 +1,22 @@
+//go:build verif
+
+// Contracts for the contract-based verification in /verif (comment-only file).
+
+package segfetcher
+
+//@ import seg "github.com/scionproto/scion/pkg/segment"
+//@ import addr "github.com/scionproto/scion/pkg/addr"
+
+//@ # ---- C30: where the looked-up paths may end.
+//@ macro isd(x) = uint16(uint64(x)>>48)
+//@ macro asn(x) = (uint64(x)&0xffffffffffff)
+//@ # a concrete destination is the only end point; for a wildcard the end points are first ISD-ASes of core
+//@ # segments - and of up segments only if the wildcard is for the local ISD (then the local cores are wanted)
+//@ func (*Pather).findDestinations
+//@   props C30
+//@   requires p != nil
+//@   modifies nothing
+//@   loop 1 invariant 0 <= (rangeindex+1) && (rangeindex+1) <= len(all) && destinations != nil
+//@   loop 1 invariant forall x addr.IA :: inmap(destinations, x) ==> seg.isFirstIA(cores, x) || (isd(dst) == isd(p.IA) && seg.isFirstIA(ups, x))
+//@   ensures isd(dst) != 0 && asn(dst) != 0 ==> forall x addr.IA :: inmap(result, x) == (x == dst)
+//@   ensures isd(dst) == 0 || asn(dst) == 0 ==> forall x addr.IA :: inmap(result, x) ==> seg.isFirstIA(cores, x) || (isd(dst) == isd(p.IA) && seg.isFirstIA(ups, x))
